@@ -26,7 +26,8 @@ SPEC = dict(
     ),
     bound=dict(
         quick="alphabet {M1, M2, M4(ill-scaled, warm-start sensitive), reset}; all histories of length <= 4 for (k=2, max_norm=1) and of length <= 3 "
-              "for (k=1,max_norm=1), (k=2,max_norm=0), (k=3,max_norm=0.3), (k=4,max_norm=1), (k=2,optim_niter=1); n_tasks=2",
+              "for (k=1,max_norm=1), (k=2,max_norm=0), (k=3,max_norm=0.3), (k=4,max_norm=1), (k=2,optim_niter=1); n_tasks=2; plus (k=2,max_norm=0.3) over "
+              "{M1, M6=0.3*M1, M2, reset} and n_tasks=3 (k=1,max_norm=1), (k=2,max_norm=0) over {M1, M5 (solver reports 'unbounded': fallback path), reset}, length <= 3",
         thorough="alphabet {M1,M2,M3,M4,reset}; k in 1..4 x max_norm in {1,0.3,0} x optim_niter in {20,1}: all histories of length <= 5 when "
                  "(optim_niter=20, max_norm=1) and <= 4 otherwise; n_tasks=3: k in 1..3, length <= 4; n_tasks in {4,5}: k in {1,2}, length <= 3",
     ),
@@ -49,6 +50,9 @@ def _mats(n_tasks):
             "M2": [[2.0, -1.0, 0.5], [0.3, 0.4, -1.0]],
             "M3": [[0.5, 0.5, 1.0], [1.0, -0.2, 0.1]],
             "M4": [[100.0, 0.0, 0.0], [0.0, 0.01, 0.0]],
+            # 0.3 x M1: weights computed on M1 and REUSED on it give a vector of norm 0.3 * sqrt(2) = 0.42, between max_norm = 0.3 and its
+            # square root (added after a seeded change that compared the squared norm with max_norm)
+            "M6": [[0.3, 0.06, 0.0], [0.03, 0.3, 0.09]],
         }
     else:
         rows = {
@@ -56,6 +60,10 @@ def _mats(n_tasks):
             "M2": [[2.0, -1.0, 0.5, 0.0], [0.3, 0.4, -1.0, 0.2], [-0.5, 0.1, 0.3, 1.0]],
             "M3": [[0.5, 0.5, 1.0, 0.0], [1.0, -0.2, 0.1, 0.3], [0.2, 1.0, -0.3, 0.4]],
             "M4": [[100.0, 0.0, 0.0, 0.0], [0.0, 0.01, 0.0, 0.0], [0.0, 0.0, 1.0, 0.0]],
+            # well conditioned (cond < 6), but ECOS reports the first linearised problem as unbounded from the initial weights: the
+            # library must fall back on the previous weights (added after a seeded change that dropped the `value is None` test)
+            "M5": [[3.0, 4.0, -1.0, 1.0], [-3.0, -3.0, -4.0, 3.0], [2.0, -2.0, 2.0, 0.0]],
+            "M6": [[0.3, 0.06, 0.0, 0.03], [0.03, 0.3, 0.09, 0.0], [0.0, 0.06, 0.3, 0.15]],
         }
     if n_tasks >= 4:  # generic well-conditioned family for 4 and 5 tasks (n_tasks x (n_tasks+1)), plus one ill-scaled member
         k = n_tasks
@@ -73,20 +81,26 @@ def gen_cases(tier, seed):
         alpha = ["M1", "M2", "M4", "R"]
         cfgs = [dict(k=2, max_norm=1.0, niter=20, n_tasks=2, L=4), dict(k=1, max_norm=1.0, niter=20, n_tasks=2, L=3),
                 dict(k=2, max_norm=0.0, niter=20, n_tasks=2, L=3), dict(k=3, max_norm=0.3, niter=20, n_tasks=2, L=3),
-                dict(k=2, max_norm=1.0, niter=1, n_tasks=2, L=3), dict(k=4, max_norm=1.0, niter=20, n_tasks=2, L=3)]
+                dict(k=2, max_norm=1.0, niter=1, n_tasks=2, L=3), dict(k=4, max_norm=1.0, niter=20, n_tasks=2, L=3),
+                dict(k=2, max_norm=0.3, niter=20, n_tasks=2, L=3, alpha=["M1", "M6", "M2", "R"]),
+                dict(k=1, max_norm=1.0, niter=20, n_tasks=3, L=3, alpha=["M1", "M5", "R"]),
+                dict(k=2, max_norm=0.0, niter=20, n_tasks=3, L=3, alpha=["M1", "M5", "R"])]
     else:
         alpha = ["M1", "M2", "M3", "M4", "R"]
         cfgs = [dict(k=k, max_norm=mn, niter=ni, n_tasks=2, L=5 if (ni == 20 and mn == 1.0) else 4) for k in (1, 2, 3, 4) for mn in (1.0, 0.3, 0.0)
                 for ni in (20, 1)]
         cfgs += [dict(k=k, max_norm=mn, niter=20, n_tasks=3, L=4) for k in (1, 2, 3) for mn in (1.0, 0.0)]
         cfgs += [dict(k=k, max_norm=1.0, niter=20, n_tasks=nt, L=3) for nt in (4, 5) for k in (1, 2)]
+        cfgs += [dict(k=k, max_norm=0.3, niter=20, n_tasks=2, L=4, alpha=["M1", "M6", "M2", "M3", "R"]) for k in (2, 3)]
+        cfgs += [dict(k=k, max_norm=mn, niter=20, n_tasks=3, L=4, alpha=["M1", "M5", "M2", "M6", "R"]) for k in (1, 2) for mn in (1.0, 0.3)]
     cases = []
     for cfg in cfgs:
         L = cfg.pop("L")
-        for pre in itertools.product(alpha, repeat=2):
-            cases.append(dict(cfg=cfg, alpha=alpha, L=L, prefix=list(pre), seed=seed))
-        for a in alpha:  # histories of length 1
-            cases.append(dict(cfg=cfg, alpha=alpha, L=1, prefix=[a], seed=seed))
+        al = cfg.pop("alpha", alpha)
+        for pre in itertools.product(al, repeat=2):
+            cases.append(dict(cfg=cfg, alpha=al, L=L, prefix=list(pre), seed=seed))
+        for a in al:  # histories of length 1
+            cases.append(dict(cfg=cfg, alpha=al, L=1, prefix=[a], seed=seed))
     return cases
 
 
